@@ -179,8 +179,8 @@ pub fn run(tier: Tier) -> Outcome {
     sweep(tier, &w, &s0, &mut st);
     // (b)
     let worlds: &[&str] = match tier {
-        Tier::Quick => &["A"],
-        Tier::Thorough => &["A", "B", "C"],
+        Tier::Quick => &["A", "B", "C"],
+        Tier::Thorough => &["A", "B", "C", "D"],
     };
     let depth = match tier {
         Tier::Quick => 3,
